@@ -752,7 +752,7 @@ def _inline_new_single_call_helpers(tree: ast.AST, ref_private: set) -> int:
     def candidates(scope_body, prefix, is_class):
         for st in list(scope_body):
             if isinstance(st, ast.FunctionDef) and st.name.startswith("_") and not st.name.endswith("__") \
-                    and f"{prefix}{st.name}" not in ref_private and not st.decorator_list:
+                    and f"{prefix}{st.name}" not in ref_private and (not st.decorator_list or [ast.unparse(d) for d in st.decorator_list] == ["staticmethod"]):
                 yield st
 
     def try_inline(h, scope_body, is_class, owner_nodes):
@@ -760,7 +760,8 @@ def _inline_new_single_call_helpers(tree: ast.AST, ref_private: set) -> int:
         a = h.args
         if a.vararg or a.kwarg or a.kwonlyargs or a.posonlyargs:
             return
-        params = [x.arg for x in a.args][1 if is_class else 0:]
+        is_static = bool(h.decorator_list)
+        params = [x.arg for x in a.args][1 if (is_class and not is_static) else 0:]
         # exactly one reference in the module
         refs = []
         for n in ast.walk(tree):
@@ -768,22 +769,24 @@ def _inline_new_single_call_helpers(tree: ast.AST, ref_private: set) -> int:
                 refs.append(n)
             elif not is_class and isinstance(n, ast.Name) and n.id == h.name:
                 refs.append(n)
-        if len(refs) != 1:
+        if not refs or len(refs) > 3:
             return
         body = [b for b in h.body if not (isinstance(b, ast.Expr) and isinstance(b.value, ast.Constant))]
         rets = [x for x in ast.walk(h) if isinstance(x, ast.Return)]
+        stored_params = set()
         for x in ast.walk(h):
             if isinstance(x, (ast.Yield, ast.YieldFrom, ast.Await, ast.Global, ast.Nonlocal)) or (x is not h and isinstance(x, (ast.FunctionDef, ast.Lambda, ast.ClassDef))):
                 return
             if isinstance(x, ast.Name) and x.id in params and isinstance(x.ctx, (ast.Store, ast.Del)):
-                return
+                stored_params.add(x.id)
         tail_value = None
         if rets:
             if len(rets) != 1 or rets[0] is not body[-1]:
                 return
             tail_value = rets[0].value
             body = body[:-1]
-        # find the statement that is the call
+        # find the statements that are the calls (every reference must be one; all are rewritten or none)
+        sites = []
         for owner in owner_nodes:
             for parent in ast.walk(owner):
                 for fld in ("body", "orelse", "finalbody"):
@@ -792,8 +795,15 @@ def _inline_new_single_call_helpers(tree: ast.AST, ref_private: set) -> int:
                         continue
                     for i, st in enumerate(blk):
                         call = st.value if isinstance(st, (ast.Expr, ast.Return, ast.Assign, ast.AnnAssign)) else None
-                        if not isinstance(call, ast.Call) or call.func is not refs[0]:
-                            continue
+                        if isinstance(call, ast.Call) and any(call.func is r for r in refs) and not any(s_[1] is st for s_ in sites):
+                            sites.append((blk, st, owner))
+        if len(sites) != len(refs):
+            return
+        plans = []
+        for blk, st, owner in sites:
+            for _once in (0,):
+                        call = st.value
+                        i = blk.index(st)
                         if is_class and not (isinstance(call.func.value, ast.Name) and call.func.value.id in ("self", "cls")):
                             return
                         if call.keywords and any(k.arg is None for k in call.keywords):
@@ -809,12 +819,26 @@ def _inline_new_single_call_helpers(tree: ast.AST, ref_private: set) -> int:
                             return
                         if isinstance(st, (ast.Assign, ast.AnnAssign, ast.Return)) and tail_value is None:
                             return
-                        # helper locals vs names used by the caller function
-                        hl = {x.id for x in ast.walk(h) if isinstance(x, ast.Name) and isinstance(x.ctx, ast.Store)}
+                        # a parameter the helper re-binds can only be substituted by itself, and only when nothing of the caller
+                        # runs after the call (tail position)
+                        tail = isinstance(st, ast.Return) or (isinstance(owner, ast.FunctionDef) and blk is owner.body and owner.body[-1] is st)
+                        for sp in stored_params:
+                            if not (tail and isinstance(binding.get(sp), ast.Name) and binding[sp].id == sp):
+                                return
+                        # helper locals vs names used by the caller function (harmless in tail position)
+                        hl = {x.id for x in ast.walk(h) if isinstance(x, ast.Name) and isinstance(x.ctx, ast.Store)} - set(params)
                         fn = owner
                         used = {x.id for x in ast.walk(fn) if isinstance(x, ast.Name)} | {x.arg for x in ast.walk(fn) if isinstance(x, ast.arg)}
-                        if hl & used:
-                            return
+                        if hl & used and not tail:
+                            # a clash only matters for a caller name whose value is still needed after the call: outside loops that
+                            # is a name read in a later statement (the call's own target is assigned by the call anyway)
+                            in_loop = any(isinstance(x, (ast.For, ast.While)) and any(y is st for y in ast.walk(x)) for x in ast.walk(fn))
+                            own_t = {x.id for t_ in (st.targets if isinstance(st, ast.Assign) else ([st.target] if isinstance(st, ast.AnnAssign) else []))
+                                     for x in ast.walk(t_) if isinstance(x, ast.Name)}
+                            later = {x.id for x in ast.walk(fn) if isinstance(x, ast.Name) and isinstance(x.ctx, ast.Load)
+                                     and getattr(x, "lineno", 0) > getattr(st, "end_lineno", getattr(st, "lineno", 0))}
+                            if in_loop or ((hl & used) - own_t) & later:
+                                return
                         new = [_SubstNames(binding).visit(_copy.deepcopy(b)) for b in body]
                         if tail_value is not None:
                             tv = _SubstNames(binding).visit(_copy.deepcopy(tail_value))
@@ -824,10 +848,15 @@ def _inline_new_single_call_helpers(tree: ast.AST, ref_private: set) -> int:
                                 new.append(ast.copy_location(ast.Assign(targets=st.targets, value=tv), st))
                             else:
                                 new.append(ast.copy_location(ast.AnnAssign(target=st.target, annotation=st.annotation, value=tv, simple=st.simple), st))
-                        blk[i:i + 1] = new or [ast.copy_location(ast.Pass(), st)]
-                        scope_body.remove(h)
-                        n_inlined += 1
-                        return
+                        plans.append((blk, st, new or [ast.copy_location(ast.Pass(), st)]))
+        if len(plans) != len(sites):
+            return
+        for blk, st, new in plans:
+            i = blk.index(st)
+            blk[i:i + 1] = new
+        scope_body.remove(h)
+        n_inlined += 1
+        return
 
     for node in list(getattr(tree, "body", [])):
         if isinstance(node, ast.ClassDef):
@@ -888,6 +917,17 @@ def _finish_modules(modules: dict) -> int:
     names (package-wide, because callers live in other modules), then per module the function locals,
     then the canonical spellings."""
     ref = _localnames()
+    if ref and not os.environ.get("VERIF_NO_ALPHA"):
+        # code moved between functions / classes is moved back first (sa/unmove.py), so that the body-fingerprint renamer
+        # below sees whole functions again
+        from . import unmove
+        for m in modules.values():
+            r = ref.get(m.relpath)
+            if r and r.get("__digest__") != m.digest and "__funcs__" in r:
+                rp = set(r["__funcs__"])
+                unmove.reattach(m.tree, rp)
+                unmove.specialise(m.tree, rp)
+                unmove.tail_returns(m.tree, rp)
     if not os.environ.get("VERIF_NO_ALPHA") and ref:
         from . import alpha
         mapping: dict[str, str] = {}
@@ -919,7 +959,11 @@ def _finish_modules(modules: dict) -> int:
         for m in modules.values():
             r = ref.get(m.relpath)
             if r and r.get("__digest__") != m.digest and "__funcs__" in r:
+                from . import unmove
+                unmove.splice_cm(m.tree, set(r["__funcs__"]))
+                unmove.tail_if(m.tree, set(r["__funcs__"]))
                 _inline_new_single_call_helpers(m.tree, set(r["__funcs__"]))
+                unmove.unwrap_namedtuples(m.tree)
     for m in modules.values():
         m.same_as_reference = bool(ref.get(m.relpath, {}).get("__digest__") == m.digest) if ref else False
         m.renamed_locals = _alpha_normalise(m.tree, m.relpath, m.digest)  # before canonicalise: operand order depends on names
